@@ -24,7 +24,7 @@ deriving Repr, DecidableEq
 
 variable {α : Type} {β : Type}
 
-/-- mirrors: top_score_collector.rs::compare_for_top_k.
+/-- mirrors: src/collector/top_score_collector.rs::compare_for_top_k.
 `le gt a b  ⇔  compare_for_top_k(a, b) != Greater` : better key first, ties by ascending address. -/
 def le (gt : α → α → Bool) (a b : Entry α) : Bool :=
   gt a.key b.key || (!gt b.key a.key && decide (a.addr ≤ b.addr))
@@ -52,13 +52,13 @@ structure Computer (α : Type) where
   threshold : Option α
   panicked : Bool := false
 
-/-- mirrors: TopNComputer::new_with_comparator — `vec_cap = top_n.max(1) * 2` (both constants
+/-- mirrors: src/collector/top_score_collector.rs::new_with_comparator — `vec_cap = top_n.max(1) * 2` (both constants
 regenerated from the source) -/
 def Computer.cap (c : Computer α) : Nat := Nat.max c.topN Gen.TOPN_CAP_MIN * Gen.TOPN_CAP_FACTOR
 
 def Computer.new (K : Nat) : Computer α := { buffer := [], topN := K, threshold := none }
 
-/-- mirrors: TopNComputer::truncate_top_n. `sel` is `select_nth_unstable_by(top_n, compare_for_top_k)`:
+/-- mirrors: src/collector/top_score_collector.rs::truncate_top_n. `sel` is `select_nth_unstable_by(top_n, compare_for_top_k)`:
 any function rearranging the buffer (its contract is a hypothesis of the theorems).
 Returns the median key and the truncated buffer; `none` = index out of bounds (Rust panics). -/
 def truncateTopN (sel : List (Entry α) → List (Entry α)) (c : Computer α) :
@@ -68,7 +68,7 @@ def truncateTopN (sel : List (Entry α) → List (Entry α)) (c : Computer α) :
   | m :: _ => some (m.key, r.take c.topN)
   | [] => none
 
-/-- mirrors: TopNComputer::append_doc -/
+/-- mirrors: src/collector/top_score_collector.rs::append_doc -/
 def appendDoc (sel : List (Entry α) → List (Entry α)) (c : Computer α) (e : Entry α) : Computer α :=
   if c.buffer.length = c.cap then
     match truncateTopN sel c with
@@ -76,7 +76,7 @@ def appendDoc (sel : List (Entry α) → List (Entry α)) (c : Computer α) (e :
     | none => { c with panicked := true }
   else { c with buffer := c.buffer ++ [e] }
 
-/-- mirrors: TopNComputer::push — strict threshold: `compare(key, threshold) != Greater` ⇒ ignored -/
+/-- mirrors: src/collector/top_score_collector.rs::push — strict threshold: `compare(key, threshold) != Greater` ⇒ ignored -/
 def push (gt : α → α → Bool) (sel : List (Entry α) → List (Entry α)) (c : Computer α) (e : Entry α) :
     Computer α :=
   match c.threshold with
@@ -87,7 +87,7 @@ def pushAll (gt : α → α → Bool) (sel : List (Entry α) → List (Entry α)
     (es : List (Entry α)) : Computer α :=
   es.foldl (push gt sel) c
 
-/-- mirrors: TopNComputer::into_vec (stored order) -/
+/-- mirrors: src/collector/top_score_collector.rs::into_vec (stored order) -/
 def intoVec (sel : List (Entry α) → List (Entry α)) (c : Computer α) : List (Entry α) :=
   if c.topN < c.buffer.length then
     match truncateTopN sel c with
@@ -95,7 +95,7 @@ def intoVec (sel : List (Entry α) → List (Entry α)) (c : Computer α) : List
     | none => []
   else c.buffer
 
-/-- mirrors: TopNComputer::into_sorted_vec. `sort_unstable_by(compare_for_top_k)` is modelled by
+/-- mirrors: src/collector/top_score_collector.rs::into_sorted_vec. `sort_unstable_by(compare_for_top_k)` is modelled by
 `isort`: on entries with distinct addresses the order is strict, so every correct sort returns
 the same list (`Proofs/TopN.lean::sorted_perm_unique`). -/
 def intoSortedVec (gt : α → α → Bool) (sel : List (Entry α) → List (Entry α)) (c : Computer α) :
@@ -110,16 +110,31 @@ def collectSegment (gt : α → α → Bool) (sel : List (Entry α) → List (En
     (docs : List (Entry α)) : List (Entry α) :=
   intoVec sel (pushAll gt sel (Computer.new N) docs)
 
-/-- mirrors: sort_key_top_collector.rs::merge_top_k with `doc_range = O .. O+K` -/
-def mergeTopK (gt : α → α → Bool) (sel : List (Entry α) → List (Entry α)) (K O : Nat)
-    (fruits : List (List (Entry α))) : List (Entry α) :=
+/-- mirrors: src/collector/sort_key_top_collector.rs::merge_top_k with `doc_range = O .. O+K` (as
+fixed by "merge_top_k: sort the collected fruits"): all per-segment fruits are collected, sorted
+(stable `sort_by`) by `(comparator desc, address asc)`, then `skip(O).take(K)`. The sort is
+modelled by `isort`: on entries with distinct addresses the order is strict, so every correct
+sort returns the same list. -/
+def mergeTopK (gt : α → α → Bool) (K O : Nat) (fruits : List (List (Entry α))) : List (Entry α) :=
   if K = 0 then []
-  else (intoSortedVec gt sel (pushAll gt sel (Computer.new (O + K)) fruits.flatten)).drop O
+  else ((isort (le gt) fruits.flatten).drop O).take K
 
 /-- mirrors: Searcher::search_with_executor with a `TopBySortKeyCollector` (generic sort key) -/
 def search (gt : α → α → Bool) (sel : List (Entry α) → List (Entry α)) (K O : Nat)
     (segments : List (List (Entry α))) : List (Entry α) :=
-  mergeTopK gt sel K O (segments.map (collectSegment gt sel (O + K)))
+  mergeTopK gt K O (segments.map (collectSegment gt sel (O + K)))
+
+/-- `merge_top_k` as it was coded BEFORE that fix (the unsorted fruits pushed into a
+`TopNComputer`); kept only to state the counterexample that motivated the fix
+(`C06_merge_unsorted_counterexample`, finding `C06:merge-ties-unsorted-fruits`, fixed). -/
+def mergeTopKPushed (gt : α → α → Bool) (sel : List (Entry α) → List (Entry α)) (K O : Nat)
+    (fruits : List (List (Entry α))) : List (Entry α) :=
+  if K = 0 then []
+  else (intoSortedVec gt sel (pushAll gt sel (Computer.new (O + K)) fruits.flatten)).drop O
+
+def searchPushed (gt : α → α → Bool) (sel : List (Entry α) → List (Entry α)) (K O : Nat)
+    (segments : List (List (Entry α))) : List (Entry α) :=
+  mergeTopKPushed gt sel K O (segments.map (collectSegment gt sel (O + K)))
 
 /-! ## `TopNHeap` (collection by score) and the pruning contract -/
 
@@ -134,7 +149,7 @@ structure Heap (α : Type) where
 
 def Heap.new (K : Nat) : Heap α := { heap := [], topN := K, threshold := none }
 
-/-- mirrors: TopNHeap::push -/
+/-- mirrors: src/collector/sort_key/sort_by_score.rs::push -/
 def heapPush (gt : α → α → Bool) (h : Heap α) (e : Entry α) : Heap α :=
   if h.heap.length < h.topN then
     let hp := ins (le gt) e h.heap
@@ -159,7 +174,7 @@ def above (gt : α → α → Bool) (k : α) : Option α → Bool
   | none => true
   | some t => gt k t
 
-/-- mirrors: the callback built in SortBySimilarityScore::collect_segment_top_k: returns the new
+/-- mirrors: src/collector/sort_key/sort_by_score.rs::collect_segment_top_k (the callback built there): returns the new
 threshold (`top_n.threshold.unwrap_or(Score::MIN)`); a deleted doc returns the old threshold. -/
 def callback (gt : α → α → Bool) (st : Heap α × Option α) (c : Cand α) : Heap α × Option α :=
   if c.alive then
@@ -167,7 +182,7 @@ def callback (gt : α → α → Bool) (st : Heap α × Option α) (c : Cand α)
     (h, h.threshold)
   else st
 
-/-- mirrors: weight.rs::for_each_pruning_scorer — the exhaustive driver -/
+/-- mirrors: src/query/weight.rs::for_each_pruning_scorer — the exhaustive driver -/
 def forEachPruning (gt : α → α → Bool) (st : Heap α × Option α) (cs : List (Cand α)) :
     Heap α × Option α :=
   cs.foldl (fun st c => if above gt c.entry.key st.2 then callback gt st c else st) st
